@@ -1770,7 +1770,8 @@ class ListProxy(list):
     def update(self, objects, **items):
         if not self._parameter.names:
             self._parameter.names = _named_objs(self)
-        objects = objects.items() if isinstance(objects, dict) else objects
+        if isinstance(objects, collections.abc.Mapping):
+            objects = objects.items()
         with self._trigger():
             for i, o in enumerate(objects):
                 if not isinstance(o, collections.abc.Sequence):
